@@ -1102,7 +1102,7 @@ class NNDescent:
         )
 
         # Preserve any distance 0 points
-        diversified_data[diversified_data == 0.0] = FLOAT32_EPS
+        diversified_data[diversified_data <= 0.0] = FLOAT32_EPS
 
         self._search_graph.row = np.repeat(
             np.arange(diversified_rows.shape[0], dtype=np.int32),
